@@ -230,7 +230,25 @@ class Chain(Part):
             "leads": st.lists(st.sampled_from(LEADS), min_size=4,
                               max_size=4),
             "xml": st.booleans(),
+            # an earlier failure inside another template's macro that an
+            # on-error element has handled: it must leave no trace
+            "handled_before": st.booleans(),
         })
+
+    def files(self, case):
+        files = self._files(case)
+        if case.get("handled_before"):
+            pre = ('<r><div tal:on-error="string:H"><p metal:use-macro="'
+                   'load: bad.pt">u</p></div>')
+            f0 = files[0]
+            f0[1] = pre + f0[1] + "</r>"
+            f0[2] = [(e, o + len(pre)) for e, o in f0[2]]
+            files.append(["bad.pt", "<p>${boom('ValueError', 'H')}</p>", []])
+        if case["xml"]:
+            for f in files:
+                f[1] = '<?xml version="1.0"?>\n' + f[1]
+                f[2] = [(e, o + 22) for e, o in f[2]]
+        return files
 
     def setup_shard(self, tier, shard):
         self.tmp = tempfile.mkdtemp(prefix="c12-")
@@ -239,7 +257,7 @@ class Chain(Part):
     def teardown_shard(self):
         shutil.rmtree(getattr(self, "tmp", ""), ignore_errors=True)
 
-    def files(self, case):
+    def _files(self, case):
         """[(filename, source, [(expression text, offset)])]: file 0 is the
         one rendered; the failure is in the last one."""
         d = case["depth"]
@@ -260,10 +278,6 @@ class Chain(Part):
                      ["tree.pt", tree,
                       [(fail_expr, tree.index(fail_expr))] +
                       [(call, tree.index(call))] * r]]
-            if case["xml"]:
-                for f in files:
-                    f[1] = '<?xml version="1.0"?>\n' + f[1]
-                    f[2] = [(e, o + 22) for e, o in f[2]]
             return files
         if case["internal"]:
             # the failing markup lives in a macro of the same template
@@ -301,10 +315,6 @@ class Chain(Part):
             src = ("<html>" + lead + '<body metal:use-macro="' + expr +
                    '">x</body></html>')
             out.insert(0, ["f%d.pt" % level, src, [(expr, src.index(expr))]])
-        if case["xml"]:
-            for f in out:
-                f[1] = '<?xml version="1.0"?>\n' + f[1]
-                f[2] = [(e, o + 22) for e, o in f[2]]
         return out
 
     def nontrivial(self, case):
@@ -321,6 +331,8 @@ class Chain(Part):
                 not case["internal"]:
             yield "slot_filler"
         yield "cls_" + case["cls"]
+        if case.get("handled_before"):
+            yield "handled_failure_before"
 
     def sample(self, case):
         return {"files": [(f[0], f[1]) for f in self.files(case)]}
